@@ -251,6 +251,22 @@ Fixpoint get (p : prob) (pos : list nat) : res prob :=
       end
   end.
 
+(* the list comprehension of with_update:
+     [f(pat[k], problem[k]) if k == i else problem[k] for k in range(len(pat))]
+   (IndexError when the problem is shorter than the pattern) *)
+Fixpoint update_elems (f : pat -> prob -> res prob) (ps : list pat) (l : list prob) (k i : nat)
+  : res (list prob) :=
+  match ps with
+  | [] => Ok []
+  | pk :: ps' =>
+      match l with
+      | [] => Err IndexError
+      | q :: l' =>
+          bind (if Nat.eqb k i then f pk q else Ok q) (fun q' =>
+          bind (update_elems f ps' l' (S k) i) (fun r => Ok (q' :: r)))
+      end
+  end.
+
 (* with_update(problem, pat, pos, v) *)
 Fixpoint with_update (pt : pat) (p : prob) (pos : list nat) (v : upd) : res prob :=
   match pos with
@@ -260,17 +276,7 @@ Fixpoint with_update (pt : pat) (p : prob) (pos : list nat) (v : upd) : res prob
           end
   | i :: rest =>
       let elems (ps : list pat) (l : list prob) : res (list prob) :=
-        (fix go (ps : list pat) (l : list prob) (k : nat) : res (list prob) :=
-           match ps with
-           | [] => Ok []
-           | pk :: pt' =>
-               match l with
-               | [] => Err IndexError
-               | q :: l' =>
-                   bind (if Nat.eqb k i then with_update pk q rest v else Ok q) (fun q' =>
-                   bind (go pt' l' (S k)) (fun r => Ok (q' :: r)))
-               end
-           end) ps l O in
+        update_elems (fun pk q => with_update pk q rest v) ps l O i in
       match pt, p with
       | PList ps, VList l => rmap VList (elems ps l)
       | PList ps, VTuple l => rmap VList (elems ps l)
